@@ -24,6 +24,8 @@ var fuzzDelims = []jetrun.Delims{
 	{Left: "@@", Right: "@@", CLeft: "#", CRight: "#"},
 	{Left: "${", Right: "}", CLeft: "{{*", CRight: "*}}"},
 	{Left: "«", Right: "»", CLeft: "<!", CRight: "!>"},
+	{Left: "[[", Right: "]]", CLeft: "[*", CRight: "*]", CommentFirst: true},
+	{Left: "<%", Right: "%>", CLeft: "¡", CRight: "!", CommentFirst: true},
 }
 
 func addSourceSeeds(f *testing.F) {
